@@ -146,4 +146,46 @@ theorem run_nonrecv_guard (bs : List (Block β)) (hbs : ∀ b ∈ bs, b.isRecv =
         have g2 := ih (fun b hb => hbs b (by simp [hb])) s1 s2 o2 h2
         exact ⟨g2.1.trans g1.1, g2.2.1.trans g1.2.1, g2.2.2.trans g1.2.2⟩
 
+/-! ### routing: all-recent QU answers never reach a multicast set -/
+
+theorem addQU_recent (q : QueryIn) (r : Routed) (a : Ans) (h : a.recent q.now = true)
+    (hr : r.mcastNow = [] ∧ r.mcastAgg = [] ∧ r.mcastAggLast = []) :
+    (addQU q r a).mcastNow = [] ∧ (addQU q r a).mcastAgg = [] ∧ (addQU q r a).mcastAggLast = [] := by
+  unfold addQU
+  simp only [h, Bool.not_true, Bool.false_eq_true, ↓reduceIte]
+  split <;> split <;> simp [hr]
+
+theorem foldl_addQU_recent (q : QueryIn) (l : List Ans) :
+    ∀ r : Routed, l.all (fun a => a.recent q.now) = true →
+      (r.mcastNow = [] ∧ r.mcastAgg = [] ∧ r.mcastAggLast = []) →
+      ((l.foldl (addQU q) r).mcastNow = [] ∧ (l.foldl (addQU q) r).mcastAgg = [] ∧ (l.foldl (addQU q) r).mcastAggLast = []) := by
+  induction l with
+  | nil => intro r _ hr; exact hr
+  | cons a rest ih =>
+    intro r hall hr
+    simp only [List.all_cons, Bool.and_eq_true] at hall
+    exact ih _ hall.2 (addQU_recent q r a hall.1 hr)
+
+theorem route_recent (q : QueryIn) (hp : q.pureQU = true) (hr : q.allRecent = true) :
+    (route q).mcastNow = [] ∧ (route q).mcastAgg = [] ∧ (route q).mcastAggLast = [] := by
+  simp only [QueryIn.pureQU, Bool.and_eq_true, Bool.not_eq_true', List.all_eq_true] at hp
+  simp only [QueryIn.allRecent, List.all_eq_true] at hr
+  unfold route
+  suffices h : ∀ (l : List Strat) (r : Routed), (∀ st ∈ l, st.unique = true) →
+      (∀ st ∈ l, st.answers.all (fun a => a.recent q.now) = true) →
+      (r.mcastNow = [] ∧ r.mcastAgg = [] ∧ r.mcastAggLast = []) →
+      ((l.foldl (routeStrat q) r).mcastNow = [] ∧ (l.foldl (routeStrat q) r).mcastAgg = [] ∧
+        (l.foldl (routeStrat q) r).mcastAggLast = []) by
+    exact h q.strats {} hp.2 (fun st hst => by simpa [List.all_eq_true] using hr st hst) ⟨rfl, rfl, rfl⟩
+  intro l
+  induction l with
+  | nil => intro r _ _ h; exact h
+  | cons st rest ih =>
+    intro r hu ha h0
+    simp only [List.foldl_cons]
+    apply ih _ (fun x hx => hu x (by simp [hx])) (fun x hx => ha x (by simp [hx]))
+    have hst := hu st (by simp)
+    simp only [routeStrat, hp.1, hst, Bool.not_false, Bool.and_self, ↓reduceIte]
+    exact foldl_addQU_recent q st.answers r (ha st (by simp)) h0
+
 end Zc.Listener
